@@ -195,6 +195,38 @@ func (c *Ctx) condField(cd *condDesc) (string, string, int64) {
 			return fld.Name(), "!bool", 0
 		}
 	case *ssa.BinOp:
+		// len(s) > 0 (!= 0, >= 1) of a string field is s != ""; len(s) == 0 (< 1) is s == ""
+		if call, isCall := x.X.(*ssa.Call); isCall {
+			if bi, isB := call.Call.Value.(*ssa.Builtin); isB && bi.Name() == "len" && len(call.Call.Args) == 1 {
+				if bt, isBasic := call.Call.Args[0].Type().Underlying().(*types.Basic); isBasic && bt.Info()&types.IsString != 0 {
+					if ld, ok := call.Call.Args[0].(*ssa.UnOp); ok {
+						if fa, ok := ld.X.(*ssa.FieldAddr); ok {
+							if k, isK := constInt(x.Y); isK {
+								nonEmpty, known := false, true
+								switch {
+								case k == 0 && (x.Op == token.GTR || x.Op == token.NEQ), k == 1 && x.Op == token.GEQ:
+									nonEmpty = true
+								case k == 0 && (x.Op == token.EQL || x.Op == token.LEQ), k == 1 && x.Op == token.LSS:
+									nonEmpty = false
+								default:
+									known = false
+								}
+								if known {
+									if edge == 1 {
+										nonEmpty = !nonEmpty
+									}
+									_, fld := fieldOf(fa)
+									if nonEmpty {
+										return fld.Name(), `!=""`, 0
+									}
+									return fld.Name(), `==""`, 0
+								}
+							}
+						}
+					}
+				}
+			}
+		}
 		ld, ok := x.X.(*ssa.UnOp)
 		if !ok {
 			return "", "", 0
@@ -1233,11 +1265,25 @@ func (c *Ctx) ruleRejectBeforeWrite(rr *RuleRep) {
 			continue
 		}
 		rejects := func(k int, sentinel string) bool {
+			isIt := func(ev ssa.Value) bool {
+				call, _ := c.asCall(ev)
+				return call != nil && len(call.Call.Args) > 0 && c.isGlobalLoad(call.Call.Args[0], sentinel)
+			}
 			for in := range ReachableViaEdge(val, ifEdge{b, k}, PathQ{BlockInstr: func(i ssa.Instruction) bool { _, isIf := i.(*ssa.If); return isIf }}) {
 				if ret, ok := in.(*ssa.Return); ok {
-					if call, _ := c.asCall(c.errResult(ret)); call != nil && len(call.Call.Args) > 0 && c.isGlobalLoad(call.Call.Args[0], sentinel) {
+					if isIt(c.errResult(ret)) {
 						return true
 					}
+				}
+			}
+			// a single exit: `err = wrapErrorf(…)` on this edge, `return err` below the tests
+			for _, ret := range returnsOf(val) {
+				phi, isPhi := c.Resolve(c.errResult(ret)).(*ssa.Phi)
+				if !isPhi {
+					continue
+				}
+				if vs, reached := valuesAlong(val, ifEdge{b, k}, ret, phi, nil); reached && len(vs) == 1 && isIt(vs[0]) {
+					return true
 				}
 			}
 			return false
@@ -1251,18 +1297,22 @@ func (c *Ctx) ruleRejectBeforeWrite(rr *RuleRep) {
 				if !holds {
 					op = negateCmp(op)
 				}
-				if base, isQ := isFieldLoad(bin.X, "Message", "QoS"); isQ && c.Resolve(base) == ssa.Value(msg) {
-					if kk, ok := constInt(bin.Y); ok && ((op == token.GTR && kk == 2) || (op == token.GEQ && kk == 3)) && rejects(k, "ErrInvalidQoS") {
-						qosOK = true
+				// either way round: `QoS > 2` / `2 < QoS`, `len(p) >= max` / `max <= len(p)`
+				for _, o := range [][3]interface{}{{bin.X, bin.Y, op}, {bin.Y, bin.X, mirrorCmp(op)}} {
+					x, y, op := o[0].(ssa.Value), o[1].(ssa.Value), o[2].(token.Token)
+					if base, isQ := isFieldLoad(x, "Message", "QoS"); isQ && c.Resolve(base) == ssa.Value(msg) {
+						if kk, ok := constInt(y); ok && ((op == token.GTR && kk == 2) || (op == token.GEQ && kk == 3)) && rejects(k, "ErrInvalidQoS") {
+							qosOK = true
+						}
 					}
-				}
-				// len(message.Payload) >= c.MaxPayloadLen (or >)
-				if call, ok := bin.X.(*ssa.Call); ok {
-					if bi, ok := call.Call.Value.(*ssa.Builtin); ok && bi.Name() == "len" {
-						if base, isP := isFieldLoad(call.Call.Args[0], "Message", "Payload"); isP && c.Resolve(base) == ssa.Value(msg) {
-							if _, isM := isFieldLoad(bin.Y, "BaseClient", "MaxPayloadLen"); isM {
-								if (op == token.GEQ || op == token.GTR) && rejects(k, "ErrPayloadLenExceeded") {
-									lenOK = true
+					// len(message.Payload) >= c.MaxPayloadLen (or >)
+					if call, ok := x.(*ssa.Call); ok {
+						if bi, ok := call.Call.Value.(*ssa.Builtin); ok && bi.Name() == "len" {
+							if base, isP := isFieldLoad(call.Call.Args[0], "Message", "Payload"); isP && c.Resolve(base) == ssa.Value(msg) {
+								if _, isM := isFieldLoad(y, "BaseClient", "MaxPayloadLen"); isM {
+									if (op == token.GEQ || op == token.GTR) && rejects(k, "ErrPayloadLenExceeded") {
+										lenOK = true
+									}
 								}
 							}
 						}
@@ -2004,6 +2054,21 @@ func negateCmp(op token.Token) token.Token {
 		return token.LEQ
 	case token.GEQ:
 		return token.LSS
+	}
+	return op
+}
+
+// mirrorCmp: the comparison with its operands exchanged (a < b  ==  b > a).
+func mirrorCmp(op token.Token) token.Token {
+	switch op {
+	case token.LSS:
+		return token.GTR
+	case token.GTR:
+		return token.LSS
+	case token.LEQ:
+		return token.GEQ
+	case token.GEQ:
+		return token.LEQ
 	}
 	return op
 }
